@@ -199,10 +199,13 @@ impl FileView {
         // I/O error since the last absolute seek.  Without this line `termination` below fails:
         // seek(Current(d)) with current == None calls self.seek(Current(0)) with current still None.
         pos is Current ==> old(self).cursor_known(),
-        [[L: pre_offset_in_range]]
-        // ASSUMPTION (suspected defects S2/S3, NOTES.md): the code adds the offset to an absolute
-        // file position in u64 / i64 without overflow protection.
+        [[L: pre_start_offset_no_u64_overflow]]
+        // ASSUMPTION (defect S2, NOTES.md): the code computes `self.start + k` in u64 unprotected.
+        // Without this line `start_arm_add_no_overflow` fails (replay: fileview n=100 a=50 b=80 ops=S-1).
         pos matches SeekFrom::Start(k) ==> old(self).start + k <= u64::MAX,
+        [[L: pre_current_offset_no_i64_overflow]]
+        // ASSUMPTION (defect S3, NOTES.md): the code computes `current as i64 + d` in i64 unprotected.
+        // Without this line `current_arm_add_no_overflow` fails (replay: ... ops=S10;C9223372036854775807).
         pos matches SeekFrom::Current(d) ==> old(self).current.unwrap() + d <= i64::MAX,
     ensures
         [[L: invariant_preserved]]
